@@ -539,6 +539,7 @@ def run(ctx):
     rnd_memory(ctx)
     from .. import gensim
     gensim.check_exit_targets(ctx, 'C01')
+    gensim.check_comparison_types(ctx, 'C01')
     return ('Structural clause of C01: for each of the 21 Operator members '
             'the chain token -> Operator (binary/unary_op_from_token) -> '
             'mnemonic (gen_binary_op / gen_unary_op / '
